@@ -60,7 +60,7 @@ class Source:
 
     __slots__ = ("name", "prng", "policy", "script", "tail", "log", "budget", "abort_at",
                  "count", "last_int", "planned", "shuffle_calls", "sites", "aborted",
-                 "extreme_hits", "sticky_hits", "site_counts", "op_count", "wide")
+                 "extreme_hits", "sticky_hits", "site_counts", "op_count", "wide", "requests")
 
     def __init__(self, name, prng, policy=None, script=None, tail="policy", budget=None,
                  abort_at=None):
@@ -84,6 +84,7 @@ class Source:
         self.sticky_hits = 0
         self.site_counts = {}
         self.wide = 0           # integer decisions with at least two possible answers
+        self.requests = None    # when a list: the size of every request, ("i", n) / ("f", 53) / ("b", k)
 
     # -- control ---------------------------------------------------------------------------
     def restart(self):
@@ -126,6 +127,8 @@ class Source:
 
     def next_int(self, n, site):
         self._tick(site)
+        if self.requests is not None:
+            self.requests.append(("i", n))
         if n > 1:
             self.wide += 1
         has, v = self._scripted()
@@ -178,6 +181,8 @@ class Source:
 
     def next_float(self, site):
         self._tick(site)
+        if self.requests is not None:
+            self.requests.append(("f", 53))
         has, v = self._scripted()
         if has:
             if not isinstance(v, float) or not (0.0 <= v < 1.0):
@@ -207,6 +212,8 @@ class Source:
 
     def next_bits(self, k, site):
         self._tick(site)
+        if self.requests is not None:
+            self.requests.append(("b", k))
         has, v = self._scripted()
         if has:
             v = int(v) % (1 << k) if k > 0 else 0
